@@ -67,6 +67,7 @@ package replication
 //@   maypanic
 //@   requires w != nil && w.log != nil && w.snapshotClient != nil && w.engine != nil && w.engine.Manager != nil && w.engine.Manager.store != nil && w.engine.Manager.nh != nil && w.engine.Manager.log != nil
 //@   before regattapb.SnapshotClient.Stream assert [C07.recover.table+C05] in != nil && bytesOf(in.Table) == bytesOf(w.table)
+//@   before snapshot.(*snapshotFile).Sync assert [C05.recover.complete+C07] world.copyok      // a stream that broke off is not restored as the leader's table
 //@   before table.(*Manager).Restore assert [C07.recover.restore+C05] name == w.table && typeIs(reader, *snapshot.snapshotFile) && asType(reader, *snapshot.snapshotFile) != nil && asType(reader, *snapshot.snapshotFile).File.rest == asType(reader, *snapshot.snapshotFile).File.whole
 //@   modifies family(CH_len), family(G_any_rest), family(G_any_sdata), family(G_any_slen), family(G_any_nrecv), allelems(uint8), w.engine.Manager.store.rHas, w.engine.Manager.store.rPair, w.engine.Manager.store.nwk, w.engine.Manager.store.wVal, w.engine.Manager.store.wVer, w.engine.Manager.store.wDel, w.engine.Manager.store.wPrevHas, w.engine.Manager.store.wPrev, family(G_any_nrec), family(G_any_leaderOf), w.engine.Manager.nh.lastRes, w.engine.Manager.nh.lastErr, w.engine.Manager.nh.lastCmd, w.engine.Manager.nh.nelem, w.engine.Manager.nh.nseq
 //@ func (tableQueueLenStore).Max
